@@ -39,7 +39,7 @@ def check(ctx):
                 "lines, per connection) is validated by TLC against ProducerTrace.tla, which infers the unlogged write outcomes. "
                 "One evaluation = one script run; non-trivial = the script holds a fault; distinct by (script, retry limit, protocol).")
     ctx.assumptions += ["faults fall between messages (the hand-over channel is unbuffered) and 2-3 ms are left for FIN / RST to travel on loopback",
-                        "Kafka (sarama) is exercised at the boundary to the client library (a scripted sarama.AsyncProducer); NSQ with the real go-nsq client against a scripted nsqd (TCP protocol); NATS with the real nats.go client against a real embedded nats-server; kafka-segmentio is not exercised: nothing is claimed about it"]
+                        "Kafka (sarama) is exercised at the boundary to the client library (a scripted sarama.AsyncProducer); NSQ with the real go-nsq client against a scripted nsqd (TCP protocol); NATS with the real nats.go client against a real embedded nats-server; kafka-segmentio with the real kafka-go Writer against a scripted broker inside the driver (ApiVersions / Metadata / Produce through kafka-go's own protocol package, two partitions)"]
     n = 6
     for r in (0, 1, 2):
         ctx.tlc_model("Producer", "mc.cfg", files={"mc.cfg": MC_CFG % dict(n=n, r=r, f=2, bug="FALSE", stalls="TRUE", props="BoundedGap Terminates")}, workers=8)
@@ -182,6 +182,7 @@ def check(ctx):
             break
     two_producers(ctx, drv, d)
     moved_sink(ctx, d)
+    segmentio(ctx, d, thorough)
     kafka(ctx, thorough)
     nsq(ctx, thorough)
     nats(ctx, thorough)
@@ -204,6 +205,81 @@ CONSTANTS N = 5
 INVARIANTS InOrderOnce HandedExactlyOnce
 CHECK_DEADLOCK FALSE
 """
+
+
+def segmentio(ctx, d, thorough):
+    """the kafka.segmentio back end: the batching loop of ProducerBatch.tla (TLC: NoDupNoReorder, NothingKept, Flushes; a timer
+    that an idle tick leaves unarmed and a batch kept after a failed write must be refuted) and the real driver + the real
+    kafka-go Writer against a scripted Kafka broker inside the driver process (two partitions, refusals per partition)"""
+    ctx.tlc_model("ProducerBatch", "ProducerBatch.cfg", workers=4)
+    ctx.tlc_must_fail("ProducerBatch", "ProducerBatchIdle.cfg", expect="temporal", workers=4)
+    ctx.tlc_must_fail("ProducerBatch", "ProducerBatchKeep.cfg", expect="NoDupNoReorder", workers=4)
+    drv = ctx.go_build_test("producer", ["producer/rawsocket_verif_test.go", "producer/segmentio_verif_test.go"])
+    scripts = [
+        # batches filling up, shutdown flushes the rest
+        {"batch_size": 4, "pflush": 1, "steps": [{"hand": 10}], "close": True, "expect": "all"},
+        # the periodic flush, then silence for several flush periods, then a trickle - the channel stays open
+        {"batch_size": 50, "pflush": 1, "steps": [{"hand": 2, "pause_ms": 2600}, {"hand": 3}], "close": False, "wait_ms": 4500, "expect": "all"},
+        {"batch_size": 50, "pflush": 1, "steps": [{"hand": 0, "pause_ms": 2300}, {"hand": 4, "pause_ms": 1500}, {"hand": 1}], "close": False, "wait_ms": 4500, "expect": "all"},
+        # one partition refuses its part of a request: a bounded gap there, nothing twice, what follows arrives
+        {"batch_size": 4, "pflush": 1, "steps": [{"hand": 16}], "refuse": [[1, 1]], "close": True, "expect": "tail"},
+        {"batch_size": 4, "pflush": 1, "steps": [{"hand": 16}], "refuse": [[2, 0], [3, 1]], "close": True, "expect": "tail"},
+        # a record no broker takes (more than a megabyte) among ordinary ones: it costs its batch, not what follows
+        {"batch_size": 4, "pflush": 1, "steps": [{"hand": 4}, {"hand": 4, "big": True}, {"hand": 8}], "close": True, "expect": "tail"},
+    ]
+    if thorough:
+        scripts += [{"batch_size": 3, "pflush": 1, "steps": [{"hand": 30}], "refuse": [[k, k % 2]], "close": True, "expect": "tail"} for k in range(1, 7)]
+    for i, sc in enumerate(scripts):
+        sc["id"] = i
+    cin, out = os.path.join(d, "segmentio.json"), os.path.join(d, "segmentio-out.json")
+    with open(cin, "w") as fh:
+        json.dump(scripts, fh)
+    rc, log, to = ctx.go_run(drv, "TestVerifSegmentio", env={"VERIF_CASES": cin, "VERIF_OUT": out, "VERIF_SEGMENTIO": 1}, timeout=300)
+    if rc != 0 or to or not os.path.exists(out):
+        if ("panic" in log or "fatal error" in log) and "segmentio.go" in log:
+            ctx.violation("kafka.segmentio producer crashed: " + (re.search(r"(panic:[^\n]*|fatal error:[^\n]*)", log) or re.search("(.*)", log[-200:])).group(1), {"log": log[-2500:]}, key="segmentio:crash")
+            return
+        raise vlib.Infra("segmentio driver failed:\n" + log[-1500:])
+    for sc, r in zip(scripts, json.load(open(out))):
+        ctx.count(["segmentio", sc["id"], sc.get("refuse"), sc["steps"]], nontrivial=True)
+        what = "kafka.segmentio producer (batch %d, periodic flush %d s, script %s%s)" % (sc["batch_size"], sc["pflush"], sc["steps"], ", refusals %s" % sc["refuse"] if sc.get("refuse") else "")
+        if r.get("infra"):
+            raise vlib.Infra("segmentio driver: " + r["infra"])
+        if r.get("hung"):
+            ctx.violation(what + ": the producer stopped taking messages / never finished its shutdown flush", {"script": sc}, key="segmentio:hung")
+            continue
+        handed = r["handed"]
+        num = lambda v: handed.index(v) if v in handed else -1
+        bad = None
+        for p, held in enumerate(r["held"]):
+            idx = [num(v) for v in held]
+            if -1 in idx:
+                bad = "partition %d holds a record that was never handed over: %s" % (p, held[idx.index(-1)][:80])
+            elif len(set(idx)) != len(idx):
+                dup = next(v for v in held if held.count(v) > 1)
+                bad = "partition %d holds a record %d times: %s" % (p, held.count(dup), dup[:80])
+            elif idx != sorted(idx):
+                bad = "partition %d holds records out of order: %s" % (p, [x + 1 for x in idx])
+            if bad:
+                break
+        both = [num(v) for held in r["held"] for v in held]
+        if not bad and len(set(both)) != len(both):
+            bad = "a record is held by both partitions"
+        if not bad:
+            missing = [i + 1 for i in range(len(handed)) if i not in both]
+            if sc["expect"] == "all" and missing:
+                bad = "%d of %d records handed over never reached the brokers (%s) - %s" % (len(missing), len(handed), missing, "the channel is still open, several flush periods have passed" if not sc["close"] else "after the shutdown flush")
+            elif sc["expect"] == "tail" and any(m > len(handed) - 4 for m in missing):
+                bad = "records handed over after the failure never reached the brokers: missing %s of %d" % (missing, len(handed))
+            elif sc["expect"] == "tail" and len(missing) > 2 * sc["batch_size"] * max(1, len(sc.get("refuse") or [1])):
+                bad = "the gap around the failure is not bounded by the batches that failed: missing %s of %d" % (missing, len(handed))
+        if sc.get("refuse") and r.get("refused", 0) < len(sc["refuse"]):
+            raise vlib.Infra("segmentio driver: the scripted refusal did not happen (%s)" % r)
+        if bad:
+            ctx.violation(what + ": " + bad, {"script": sc, "held": r["held"], "errors": r.get("errors")}, key="segmentio:" + bad.split(" ")[0])
+        else:
+            ctx.traces_validated += 1
+    ctx.extra["segmentio_scripts"] = len(scripts)
 
 
 def moved_sink(ctx, d):
